@@ -452,6 +452,7 @@ func c14Serve(c *Ctx, fn *ssa.Function, decPkg, short string) {
 
 	// --- K6
 	c14Close(c, fn, read, key)
+	c14LoopWaits(c, fn, read, key)
 }
 
 func exitDesc(c *Ctx, from, to *ssa.BasicBlock) string {
@@ -675,6 +676,46 @@ func c14PeerRewrite(c *Ctx, fn *ssa.Function, g *ssa.Go, arg ssa.Value, peer *ss
 		"the sender's own address is passed on although it is nil or 0.0.0.0")
 	_ = keepPreds
 	_ = joinBlock
+}
+
+// c14LoopWaits: K9 — the serve loop waits for nothing but the next datagram: no channel send or receive, blocking
+// select, WaitGroup/Cond wait or sleep on the loop's cycle (in Serve itself or in what it calls synchronously there).
+// A handler slot taken with a blocking send, a rate limiter, a wait for the previous handler: while the loop waits, valid
+// datagrams are not dispatched, and Serve no longer returns when the connection is closed.
+func c14LoopWaits(c *Ctx, fn *ssa.Function, read *ssa.Call, key func(string) string) {
+	r := c.R
+	n := 0
+	for _, w := range waitOpsIn(fn) {
+		if sameCycle(w.in.Block(), read.Block()) {
+			n++
+			r.Violation("C14-K9", key("the serve loop waits only for the next datagram: "+w.what), c.P.ipos(w.in),
+				"a "+w.what+" on the serve loop's cycle: while it waits, decoded and later datagrams are not dispatched and a closed connection is not noticed")
+		}
+	}
+	// synchronous callees invoked on the cycle
+	allInstrs(fn, func(in ssa.Instruction) {
+		cl, ok := in.(*ssa.Call)
+		if !ok || !sameCycle(cl.Block(), read.Block()) {
+			return
+		}
+		sf := cl.Call.StaticCallee()
+		if sf == nil || !inModule(sf) || sf.Pkg != fn.Pkg {
+			return
+		}
+		for _, g := range syncClosure(c.P, []*ssa.Function{sf}, 3) {
+			if g.Pkg != fn.Pkg {
+				continue
+			}
+			for _, w := range waitOpsIn(g) {
+				n++
+				r.Violation("C14-K9", key("the serve loop waits only for the next datagram: "+w.what+" in "+shortName(g)), c.P.ipos(w.in),
+					"a "+w.what+" in a function the serve loop calls synchronously")
+			}
+		}
+	})
+	if n == 0 {
+		r.OK("C14-K9", key("the serve loop waits only for the next datagram"), c.P.ipos(read), "no waiting operation on the loop's cycle", "")
+	}
 }
 
 func c14Close(c *Ctx, fn *ssa.Function, read *ssa.Call, key func(string) string) {
